@@ -141,12 +141,14 @@ def decay_two_datasets(with_fault=True, fault_first=False):   # the auto-linked 
     from glotaran.simulation import simulate
     spec = {
         "megacomplex": {"mpar": {"type": "decay-parallel", "compartments": ["s1", "s2"], "rates": ["rates.1", "rates.2"]}},
-        "irf": {"irf1": {"type": "gaussian", "center": "irf.center", "width": "irf.width"}},
+        # a two-component, non-dispersive multi-Gaussian IRF: several components accumulate into one matrix entry (the kernels run on
+        # several threads: the sum must not depend on how many)
+        "irf": {"irf1": {"type": "multi-gaussian", "center": ["irf.center", "irf.center2"], "width": ["irf.width"], "scale": ["irf.one", "irf.s2"]}},
         "dataset": {"d1": {"megacomplex": ["mpar"], "irf": "irf1"}, "d2": {"megacomplex": ["mpar"], "irf": "irf1", "scale": "sc.1"}},
         "dataset_groups": {"default": {"residual_function": "variable_projection", "link_clp": None}},
     }
-    params = {"rates": [["1", 0.8], ["2", 0.15]], "irf": [["center", 0.2], ["width", 0.15]], "sc": [["1", 0.7]]}
-    true = {"rates": [["1", 0.9], ["2", 0.12]], "irf": [["center", 0.25], ["width", 0.13]], "sc": [["1", 0.8]]}
+    params = {"rates": [["1", 0.8], ["2", 0.15]], "irf": [["center", 0.2], ["width", 0.15], ["center2", 0.9, {"vary": False}], ["one", 1.0, {"vary": False}], ["s2", 0.3, {"vary": False}]], "sc": [["1", 0.7]]}
+    true = {"rates": [["1", 0.9], ["2", 0.12]], "irf": [["center", 0.25], ["width", 0.13], ["center2", 0.9], ["one", 1.0], ["s2", 0.3]], "sc": [["1", 0.8]]}
     spectral = np.linspace(600, 650, 6)
     clp = xr.DataArray(np.stack([8 * np.exp(-((spectral - 610) / 15) ** 2), 5 * np.exp(-((spectral - 640) / 10) ** 2)], axis=1),
                        coords={"spectral": spectral, "clp_label": ["s1", "s2"]}, dims=("spectral", "clp_label"))
